@@ -112,7 +112,7 @@ def corrupt_text(rng, s):
 
 
 META_BITS = ['::id 1', '::snt a b', '::k', '::k  v', ':: v', '::', '::a::b', ':::c', '::date 2012-12-23',
-             '::x\ty', '::tok ( ) / : ~ "', '::u \u2028z', '::e \xa0', '::alignments 0-1 1-2', 'plain', '::nfd cafe\u0301 \u212b', '::annotator None', '::n 0',
+             '::x\ty', '::tok ( ) / : ~ "', '::u \u2028z', '::e \xa0', '::alignments 0-1 1-2', 'plain', '::nfd cafe\u0301 \u212b', '::annotator None', '::n 0', '::path C:\\new\\table.txt', '::re \\d+\\n',
              ';; note', '::k: v:', '::url http://x/y::z']
 META_GAPS = [' ', '  ', '   ', '\t', ' \t ', '']
 
